@@ -7,6 +7,7 @@ import (
 	"encoding/binary"
 	"io"
 	"math/rand"
+	"sync"
 
 	"github.com/gotd/td/mtproxy"
 	"github.com/gotd/td/mtproxy/faketls"
@@ -30,6 +31,32 @@ type pipeEnd struct {
 
 func (p *pipeEnd) Read(b []byte) (int, error)  { return p.r.Read(b) }
 func (p *pipeEnd) Write(b []byte) (int, error) { return p.w.Write(b) }
+
+type lockedBuf struct {
+	mu sync.Mutex
+	b  []byte
+}
+
+func (l *lockedBuf) Write(p []byte) (int, error) {
+	l.mu.Lock()
+	l.b = append(l.b, p...)
+	l.mu.Unlock()
+	return len(p), nil
+}
+func (l *lockedBuf) bytes() []byte {
+	l.mu.Lock()
+	defer l.mu.Unlock()
+	return append([]byte(nil), l.b...)
+}
+func (l *lockedBuf) reset() { l.mu.Lock(); l.b = nil; l.mu.Unlock() }
+
+type pipeEnd2 struct {
+	r *io.PipeReader
+	w io.Writer
+}
+
+func (p *pipeEnd2) Read(b []byte) (int, error)  { return p.r.Read(b) }
+func (p *pipeEnd2) Write(b []byte) (int, error) { return p.w.Write(b) }
 
 // walkRecords parses TLS record headers of a byte stream trusting the declared lengths.
 func walkRecords(b []byte) (declaredOK bool) {
@@ -82,6 +109,77 @@ func init() {
 				}
 			}
 			return tr.M{"equal": bytes.Equal(got, sent), "total": len(got), "declared_ok": declared}
+		case "duplex":
+			// inbound bytes are handed over piece by piece; what the endpoint writes is collected
+			inR, inW := io.Pipe()
+			out := &lockedBuf{}
+			ep := faketls.NewFakeTLS(rng, &pipeEnd2{r: inR, w: out})
+			if !tr.Bool(in["first"]) {
+				// not the first packet: the ChangeCipherSpec record has gone out earlier
+				if _, err := ep.Write([]byte{0xAA}); err != nil {
+					return tr.M{"err": "prewrite"}
+				}
+				out.reset()
+			}
+			payload := rbytes(rng, tr.Int(in["rsize"]))
+			var inbound []byte
+			for rest := payload; len(rest) > 0; {
+				n := len(rest)
+				if n > 16384 {
+					n = 16384
+				}
+				inbound = append(inbound, tlsRecord(0x17, rest[:n])...)
+				rest = rest[n:]
+			}
+			split := tr.Int(in["split"])
+			if split > len(inbound) {
+				split = len(inbound)
+			}
+			type rres struct {
+				got []byte
+				err error
+			}
+			rch := make(chan rres, 1)
+			go func() {
+				got := make([]byte, 0, len(payload))
+				buf := make([]byte, 4096)
+				for len(got) < len(payload) {
+					n, err := ep.Read(buf)
+					got = append(got, buf[:n]...)
+					if err != nil {
+						rch <- rres{got, err}
+						return
+					}
+				}
+				rch <- rres{got, nil}
+			}()
+			if split > 0 {
+				if _, err := inW.Write(inbound[:split]); err != nil { // returns when the reader has consumed the piece
+					return tr.M{"err": "feed1"}
+				}
+			}
+			wdata := rbytes(rng, tr.Int(in["wsize"]))
+			wn, werr := ep.Write(wdata)
+			go func() { _, _ = inW.Write(inbound[split:]); _ = inW.Close() }()
+			r := <-rch
+			res := tr.M{"read_equal": r.err == nil && bytes.Equal(r.got, payload), "write_declared_ok": werr == nil && wn == len(wdata) && walkRecords(out.bytes())}
+			// payload bytes of the application records the endpoint wrote
+			var wrote []byte
+			for b := out.bytes(); len(b) >= 5; {
+				n := int(binary.BigEndian.Uint16(b[3:5]))
+				if len(b) < 5+n {
+					break
+				}
+				if b[0] == 0x17 {
+					wrote = append(wrote, b[5:5+n]...)
+				}
+				b = b[5+n:]
+			}
+			res["write_equal"] = bytes.Equal(wrote, wdata)
+			if r.err != nil {
+				res["read_err"] = r.err.Error()
+			}
+			return res
 		case "hello":
 			secret := rbytes(rng, 16)
 			c2sR, c2sW := io.Pipe()
